@@ -48,7 +48,11 @@ def file_text(lay, k, expect):
     lines = ["import qmluic.QtWidgets"]
     for j, d in enumerate(f["imports"]):
         salt = int(hashlib.sha1(json.dumps([lay["files"], k, j]).encode()).hexdigest(), 16)
-        lines.append('import "%s"' % spell(f["dir"], d, salt))
+        if d == "nodir" and salt % 3 == 2:
+            # an aliased import of an existing directory is "not supported": it contributes no types, like a path that is not a directory
+            lines.append('import "%s" as Aliased%d' % (os.path.relpath("b", f["dir"]), j))
+        else:
+            lines.append('import "%s"' % spell(f["dir"], d, salt))
     body = []
     for j, kid in enumerate(f["kids"]):
         props = "; ".join('%s: "%s%d"' % (p, v, j) for p, v in BASEPROP.get(expect["bases"][j + 1], []))
